@@ -28,6 +28,15 @@ var (
 	vcGood bool
 	// allocation watermark at the last accepted delivery: everything handed to the handler is at most this old
 	vcDelivered uint64
+
+	// C15, the table cache, stated for ONE arbitrary table id (vcWatchID is never assigned: whatever holds for it
+	// holds for every id): the latest table map announced for that id, the cache entry it lives in and the names
+	// for which that entry's mapper table was obtained
+	vcWatchID   uint64
+	vcWatchTM   *replication.TableMap
+	vcWatchTC   *tableCache
+	vcWatchDB   string
+	vcWatchName string
 )
 
 // ---- classification of an event as the statement of C02 has it ----
@@ -81,6 +90,8 @@ func vc_hook_loopentry_Streamer_parseEvents_1(pos Position) {
 	vcCalled = false
 	vcGood = true
 	vcDelivered = 0
+	vcWatchTM = nil
+	vcWatchTC = nil
 }
 
 // the handler accepted tran: the boundary moves behind it, nothing is buffered, no transaction is open
@@ -97,7 +108,7 @@ func vc_hook_callback_ok_sendTransaction(tran *Transaction) {
 // end of an iteration that continues the loop: advance the ghost state by the event just processed
 //
 //verif:hook loop-step parseEvents 1
-func vc_hook_loopstep_Streamer_parseEvents_1(ev replication.BinlogEvent, format replication.BinlogFormat) {
+func vc_hook_loopstep_Streamer_parseEvents_1(ev replication.BinlogEvent, format replication.BinlogFormat, tablesMaps map[uint64]*tableCache) {
 	// iterations that end before the classification: a format description, or anything before the first one
 	stripped := !ev.IsFormatDescription() && !format.IsZero()
 	class := vcIgnore
@@ -122,6 +133,19 @@ func vc_hook_loopstep_Streamer_parseEvents_1(ev replication.BinlogEvent, format 
 		}
 	default:
 		vcGood = vcGood && !delivered
+		if stripped && !ev.IsXID() && !ev.IsRotate() && !ev.IsQuery() && ev.IsTableMap() && ev.TableID(format) == vcWatchID {
+			// a table map for the watched id was processed (this iteration continues the loop, so it was accepted):
+			// it is the latest one now; if a new cache entry was made for it, that entry's table was asked for its names
+			tm, err := ev.TableMap(format)
+			if err == nil {
+				vcWatchTM = tm
+				if tablesMaps[vcWatchID] != vcWatchTC {
+					vcWatchTC = tablesMaps[vcWatchID]
+					vcWatchDB = tm.Database
+					vcWatchName = tm.Name
+				}
+			}
+		}
 		if stripped && ev.IsRotate() && !ev.IsXID() {
 			// a rotation moves the boundary to its target
 			fn, off, err := ev.Rotate(format)
@@ -138,8 +162,20 @@ func vc_Streamer_parseEvents_requires(s *Streamer, ctx context.Context, events <
 	return s != nil && s.tableMapper != nil && ctx != nil
 }
 
-func vc_Streamer_parseEvents_loop1_inv(pos Position, autocommit bool, tranEvents []*StreamEvent) bool {
-	return vspec.Owned(tranEvents) && // the buffer is never memory that existed before the call,
+// C15: the cache entry of the watched id holds the latest table map announced for it, a mapper table with as many
+// columns as that table map, obtained for that table map's database and table name
+func specCacheOK(tablesMaps map[uint64]*tableCache) bool {
+	tc, ok := tablesMaps[vcWatchID]
+	if !ok {
+		return vcWatchTC == nil
+	}
+	return tc != nil && tc == vcWatchTC && vcWatchTM != nil && tc.tableMap == vcWatchTM && tc.table != nil &&
+		len(tc.table.Columns()) == vcWatchTM.CanBeNull.Count() &&
+		vcWatchTM.Database == vcWatchDB && vcWatchTM.Name == vcWatchName
+}
+
+func vc_Streamer_parseEvents_loop1_inv(pos Position, autocommit bool, tranEvents []*StreamEvent, tablesMaps map[uint64]*tableCache) bool {
+	return specCacheOK(tablesMaps) && vspec.Owned(tranEvents) && // the buffer is never memory that existed before the call,
 		// C08: nor memory that was handed to the handler: it is nil or was allocated after the last delivery
 		vcDelivered <= vspec.Watermark() && (tranEvents == nil || vspec.BaseOf(tranEvents) > vcDelivered) &&
 		pos == vcAcc && // C04: the position to resume from is the accepted boundary
